@@ -200,3 +200,137 @@ Proof.
     apply Z.eqb_eq in E2. rewrite E2, sgn_0 in M. symmetry in M. apply (proj1 (lexcmp_eq _ _)) in M.
     apply list_eqb_eq in M. congruence.
 Qed.
+
+(* ---- first / last position of a suffix predicate ---- *)
+Local Open Scope nat_scope.
+
+Lemma find_first_unfold P l :
+  find_first P l = if P l then Some 0 else match l with [] => None | _ :: t => option_map S (find_first P t) end.
+Proof. destruct l; reflexivity. Qed.
+
+Lemma find_first_some P l : forall k, find_first P l = Some k ->
+  P (skipn k l) = true /\ k <= length l /\ forall i, i < k -> P (skipn i l) = false.
+Proof.
+  induction l as [|x t IH]; intros k H; rewrite find_first_unfold in H.
+  - destruct (P []) eqn:E; [|discriminate]. injection H as <-. cbn. repeat split; auto; intros; lia.
+  - destruct (P (x :: t)) eqn:E.
+    + injection H as <-. cbn. repeat split; auto; intros; lia.
+    + destruct (find_first P t) as [k'|] eqn:E'; [|discriminate]. cbn in H. injection H as <-.
+      destruct (IH k' eq_refl) as (A & B & C). cbn. repeat split; auto; try lia.
+      intros [|i] Hi; cbn; auto. apply C. lia.
+Qed.
+
+Lemma find_first_none P l : find_first P l = None -> forall i, i <= length l -> P (skipn i l) = false.
+Proof.
+  induction l as [|x t IH]; intros H i Hi; rewrite find_first_unfold in H.
+  - destruct (P []) eqn:E; [discriminate|]. destruct i; cbn; auto.
+  - destruct (P (x :: t)) eqn:E; [discriminate|].
+    destruct (find_first P t) eqn:E'; [discriminate|].
+    destruct i as [|i]; cbn; auto. apply IH; auto. cbn in Hi. lia.
+Qed.
+
+Lemma find_last_none P l : (forall i, i <= length l -> P (skipn i l) = false) -> find_last P l = None.
+Proof.
+  induction l as [|x t IH]; intros H; cbn.
+  - rewrite (H 0 (le_n _)). reflexivity.
+  - rewrite IH. + rewrite (H 0 (Nat.le_0_l _)). reflexivity.
+    + intros i Hi. apply (H (S i)). cbn. lia.
+Qed.
+
+Lemma find_last_end P l : P [] = true -> find_last P l = Some (length l).
+Proof. intros H. induction l as [|x t IH]; cbn; [rewrite H; reflexivity|rewrite IH; reflexivity]. Qed.
+
+Lemma find_last_shift P l : forall k j, k <= length l -> find_last P (skipn k l) = Some j -> find_last P l = Some (k + j).
+Proof.
+  induction l as [|x t IH]; intros [|k] j Hk H; cbn in *; auto; try lia.
+  rewrite (IH k j); auto. lia.
+Qed.
+
+Lemma m_findlast_loop_spec P : forall fuel l base last, length l < fuel ->
+  m_findlast_loop fuel P l base last =
+  match find_last P l with Some j => Z.of_nat (base + j) | None => last end.
+Proof.
+  induction fuel as [|f IH]; intros l base last Hf; [lia|]. cbn [m_findlast_loop].
+  destruct (find_first P l) as [k|] eqn:E.
+  - destruct (find_first_some P l k E) as (A & B & C).
+    destruct (skipn k l) as [|y rest] eqn:ES.
+    + assert (k = length l).
+      { pose proof (skipn_length k l) as SL. rewrite ES in SL. cbn in SL. lia. }
+      subst k. rewrite (find_last_end P l A). reflexivity.
+    + assert (LR : length rest < f).
+      { pose proof (skipn_length k l) as SL. rewrite ES in SL. cbn in SL. lia. }
+      rewrite IH by exact LR.
+      assert (FL : find_last P (y :: rest) = match find_last P rest with Some j => Some (S j) | None => Some 0 end).
+      { cbn. destruct (find_last P rest); auto. rewrite A. reflexivity. }
+      destruct (find_last P rest) as [j|] eqn:EL.
+      * rewrite <- ES in FL. rewrite (find_last_shift P l k (S j) B FL). f_equal. lia.
+      * rewrite <- ES in FL. rewrite (find_last_shift P l k 0 B FL). f_equal.
+  - rewrite (find_last_none P l (find_first_none P l E)). reflexivity.
+Qed.
+
+(* ---- split ---- *)
+Lemma split_all_find seps : forall l cur,
+  split_all seps cur l =
+  match find_first (P_any seps) l with
+  | None => [rev cur ++ l]
+  | Some k => (rev cur ++ firstn k l) :: split_all seps [] (skipn (S k) l)
+  end.
+Proof.
+  induction l as [|x t IH]; intros cur; rewrite find_first_unfold.
+  - cbn. rewrite app_nil_r. reflexivity.
+  - cbn [P_any split_all]. destruct (memb x seps) eqn:E.
+    + cbn. rewrite app_nil_r. reflexivity.
+    + rewrite IH. destruct (find_first (P_any seps) t) as [k|]; cbn [option_map rev firstn skipn].
+      * rewrite <- app_assoc. reflexivity.
+      * rewrite <- app_assoc. reflexivity.
+Qed.
+
+Lemma m_split_spec seps skip : forall fuel p, length p < fuel ->
+  m_split_loop fuel seps p skip = s_split seps p skip.
+Proof.
+  unfold s_split. induction fuel as [|f IH]; intros p Hf; [lia|]. cbn [m_split_loop]. unfold m_strpbrk.
+  rewrite (split_all_find seps p []). cbn [rev app].
+  destruct (find_first (P_any seps) p) as [k|] eqn:E.
+  - destruct (find_first_some _ _ _ E) as (A & B & _).
+    assert (NE : p <> []).
+    { intros ->. destruct k; cbn in A; discriminate. }
+    destruct p as [|x t]; [congruence|]. cbn [length] in *.
+    destruct k as [|k].
+    + cbn [skipn firstn]. rewrite IH by lia. destruct skip; reflexivity.
+    + replace (S k + 1) with (S (S k)) by lia. rewrite IH by (rewrite skipn_length; cbn; lia).
+      destruct skip; reflexivity.
+  - destruct p as [|x t]; destruct skip; reflexivity.
+Qed.
+
+(* ---- substr / token ---- *)
+Lemma s_substr_slice l start k : start + k <= length l ->
+  s_substr l (Z.of_nat start) (Z.of_nat k) = slice l start k.
+Proof.
+  intros H. unfold s_substr.
+  destruct (Z.of_nat start <? 0)%Z eqn:E1; [lia|]. destruct (0 <=? Z.of_nat k)%Z eqn:E2; [|lia].
+  f_equal; lia.
+Qed.
+
+Lemma s_substr_tail l start : s_substr l (Z.of_nat start) (-1) = skipn start l.
+Proof.
+  unfold s_substr. destruct (Z.of_nat start <? 0)%Z eqn:E1; [lia|]. cbn [Z.leb Z.compare].
+  unfold slice. destruct (le_dec start (length l)).
+  - replace (Z.to_nat (Z.min (Z.of_nat start) (Z.of_nat (length l)))) with start by lia.
+    apply firstn_all2. rewrite skipn_length. lia.
+  - replace (Z.to_nat (Z.min (Z.of_nat start) (Z.of_nat (length l)))) with (length l) by lia.
+    rewrite (skipn_all2 (n := start)) by lia. rewrite skipn_all. destruct (Z.to_nat _); reflexivity.
+Qed.
+
+Lemma token_mirror (P : list Z -> bool) l start :
+  (match (if length l <=? start then None else find_first P (skipn start l)) with
+   | Some k => (s_substr l (Z.of_nat start) (Z.of_nat k), start + k + 1)
+   | None => (s_substr l (Z.of_nat start) (-1), length l)
+   end) = s_token P l start.
+Proof.
+  unfold s_token. destruct (length l <=? start) eqn:E.
+  - apply Nat.leb_le in E. rewrite s_substr_tail, skipn_all2 by lia. reflexivity.
+  - apply Nat.leb_gt in E. destruct (find_first P (skipn start l)) as [k|] eqn:F.
+    + destruct (find_first_some _ _ _ F) as (_ & B & _). rewrite skipn_length in B.
+      rewrite s_substr_slice by lia. reflexivity.
+    + rewrite s_substr_tail. reflexivity.
+Qed.
